@@ -236,11 +236,13 @@ type identity struct {
 	Tag         string
 	Email       string
 	Groups      []string
-	AT, RT      string // tokens the fake IdP issued
-	AuthCookie  string // sealed authenticator session (saved copy)
-	ProxyCookie string // sealed proxy session (saved copy)
-	authScope   string // Domain|Path of the authenticator session cookie as issued
-	proxyScope  string // Domain|Path of the proxy session cookie as issued
+	AT, RT      string   // tokens the fake IdP issued
+	GrantTokens []string // every access token the IdP issued under this grant (AT first)
+	ProxyAT     string   // the access token the saved proxy session holds
+	AuthCookie  string   // sealed authenticator session (saved copy)
+	ProxyCookie string   // sealed proxy session (saved copy)
+	authScope   string   // Domain|Path of the authenticator session cookie as issued
+	proxyScope  string   // Domain|Path of the proxy session cookie as issued
 }
 
 func scopeOf(rs *sut.Resp, name string) string {
